@@ -137,7 +137,7 @@ def forbidden_scan():
 
 
 # property files that belong to a property besides Props/<prop>.lean
-EXTRA_PROP_FILES = {"C06": ["C06Index", "C06RefStable"], "C02": ["C02Builder", "C02Fuel"], "C20": ["C20Classes"], "C16": ["C16Ide"], "C07": ["C07Ide"], "C11": ["C11Ide"], "C12": ["C12Ide"]}
+EXTRA_PROP_FILES = {"C06": ["C06Index", "C06RefStable"], "C02": ["C02Builder", "C02Fuel"], "C05": ["C05Files"], "C20": ["C20Classes"], "C16": ["C16Ide"], "C07": ["C07Ide"], "C11": ["C11Ide"], "C12": ["C12Ide"]}
 
 
 def prop_theorems(prop):
@@ -355,12 +355,20 @@ def run_lines(binary, lines, timeout=120, jobs=None, tag="run", env=None):
     return res
 
 
+def _canon_messages(outs):
+    """reworded diagnostic messages are mapped back to the wording the models carry (identity on an unchanged tree: vlib/msgmap.py)"""
+    from . import msgmap
+    if not msgmap.active():
+        return outs
+    return [msgmap.canon_line(o) for o in outs]
+
+
 def impl(lines, **kw):
-    return run_lines(TGVERIF, lines, tag=kw.pop("tag", "impl"), **kw)
+    return _canon_messages(run_lines(TGVERIF, lines, tag=kw.pop("tag", "impl"), **kw))
 
 
 def model(lines, **kw):
-    return run_lines(TGDRIVE, lines, tag=kw.pop("tag", "model"), **kw)
+    return _canon_messages(run_lines(TGDRIVE, lines, tag=kw.pop("tag", "model"), **kw))
 
 
 # --------------------------------------------------------------------------- findings / evidence / verdict
